@@ -4,8 +4,8 @@ import os
 from pathlib import Path
 import re
 from typing import (
-        Any, AnyStr, Callable, cast, Dict, IO, List, overload, TypeVar, Union
-        )  # noqa
+        Any, AnyStr, Callable, cast, Dict, IO, List, overload, Set, TypeVar,
+        Union)  # noqa
 from typing_extensions import ClassVar, Type    # noqa
 
 import yaml
@@ -62,6 +62,7 @@ class Loader(yaml.SafeLoader):
         """
         node = cast(yaml.Node, super().get_single_node())
         if node is not None:
+            self.__check_no_cycles(node, set(), set())
             node = self.__process_node(node, type(self).document_type)
         return node
 
@@ -77,8 +78,41 @@ class Loader(yaml.SafeLoader):
         """
         node = cast(yaml.Node, super().get_node())
         if node is not None:
+            self.__check_no_cycles(node, set(), set())
             node = self.__process_node(node, type(self).document_type)
         return node
+
+    def __check_no_cycles(
+            self, node: yaml.Node, ancestors: Set[int], done: Set[int]
+            ) -> None:
+        """Rejects documents in which a node contains itself.
+
+        An alias may refer to an anchor on one of the nodes it is
+        itself a part of. PyYAML then produces a cyclic node graph,
+        which cannot be converted to a tree of objects.
+
+        Args:
+            node: The node to check.
+            ancestors: Ids of the collection nodes we are inside of.
+            done: Ids of the collection nodes checked already.
+        """
+        if isinstance(node, yaml.ScalarNode) or id(node) in done:
+            return
+        if id(node) in ancestors:
+            raise RecognitionError(
+                    '{}\nFound an alias to a node that contains the alias'
+                    ' itself, which is not supported.'.format(
+                        node.start_mark))
+        ancestors.add(id(node))
+        if isinstance(node, yaml.SequenceNode):
+            for item in node.value:
+                self.__check_no_cycles(item, ancestors, done)
+        elif isinstance(node, yaml.MappingNode):
+            for key_node, value_node in node.value:
+                self.__check_no_cycles(key_node, ancestors, done)
+                self.__check_no_cycles(value_node, ancestors, done)
+        ancestors.remove(id(node))
+        done.add(id(node))
 
     def __type_to_tag(self, type_: Type) -> str:
         """Convert a type to the corresponding YAML tag.
